@@ -298,7 +298,10 @@ def run_family(family, mode, n, labels, seed, runner, workdir, extra=None, jobs=
     for tr in traces:
         if not os.path.exists(tr):
             continue
-        rc, out = sh([os.path.join(BUILD, runner), tr], timeout=3000)
+        # the extracted model works on lists (a data file is a list of bytes): give the runner the
+        # stack it needs instead of the shell's default 8 MB
+        rc, out = sh("ulimit -s unlimited 2>/dev/null || ulimit -s 1000000; exec %s %s"
+                     % (os.path.join(BUILD, runner), tr), timeout=3000)
         verdicts = {}
         cur_mis = {}
         last = None
